@@ -320,12 +320,24 @@ def run(prog: Program) -> Results:
     ridx = {norm(d.targets[0]) for d in ast.walk(rv.node) if isinstance(d, ast.Assign) and norm(d.value) == f"len({RL}) - {RD}"}
     tlayer = {norm(d.targets[0]) for d in ast.walk(rv.node) if isinstance(d, ast.Assign) and isinstance(d.value, ast.Subscript)
               and norm(d.value.value) == RL and norm(d.value.slice) in ridx}
-    dels = [n for n in rcfg.nodes if isinstance(n.ast, ast.Delete) and any(norm(t.value) == RL for t in n.ast.targets if isinstance(t, ast.Subscript))]
+    def _pruned_index(n):
+        """index expression of `del layers[i]` / `layers.pop(i)` in CFG node n, else None"""
+        if isinstance(n.ast, ast.Delete):
+            for t in n.ast.targets:
+                if isinstance(t, ast.Subscript) and norm(t.value) == RL:
+                    return norm(t.slice)
+        if n.ast is not None and n.kind == "stmt":
+            for c in ast.walk(n.ast):
+                if isinstance(c, ast.Call) and isinstance(c.func, ast.Attribute) and c.func.attr == "pop" and norm(c.func.value) == RL and len(c.args) == 1:
+                    return norm(c.args[0])
+        return None
+
+    dels = [n for n in rcfg.nodes if _pruned_index(n) is not None]
     r3.instances += len(dels)
     if len(dels) != 1:
         res.add("R-C09-3", (rv.key, "prune count"), rv.loc(), f"remove_value deletes from the layer list at {len(dels)} places (expected exactly one)")
     for d in dels:
-        idx = norm(d.ast.targets[0].slice)
+        idx = _pruned_index(d)
 
         def empty_scope(a, truth):
             return any(norm(a) in (f"{tl}['scope']", f"{tl}.get('scope')") for tl in tlayer) and truth is False
@@ -397,15 +409,24 @@ def run(prog: Program) -> Results:
                 verdict = True
             elif (breaks_first and incs) or alt:
                 verdict, why = False, f"the remainder `{norm(r_val)}` is not `{src}[{d_name}:]` or the counter has other definitions"
-        # idiom 2: strip + length difference
-        if verdict is None and norm(r_val) == f"{src}.lstrip('@')":
+        # idiom 2: the depth is the length difference to the stripped text; the remainder is the stripped text or the slice by
+        # the depth (any mix of the two spellings, locals looked through)
+        if verdict is None:
+            from sa.util import Aliases
+            al2 = Aliases(sp.node, calls=("len",))
+            strip = f"{src}.lstrip('@')"
             dd = defs_of(d_name) if d_name else []
             dv = dd[0].value if len(dd) == 1 and isinstance(dd[0], ast.Assign) else d_expr
-            rn = norm(r_expr)
-            if norm(dv) in (f"len({src}) - len({rn})", f"len({src}) - len({src}.lstrip('@'))"):
-                verdict = True
-            else:
-                verdict, why = False, f"the depth `{norm(dv)}` is not the length of the stripped prefix"
+            depth_ok = al2.norm(dv) in (f"len({src}) - len({strip})",)
+            rem_txt = al2.norm(r_val)
+            rem_ok = rem_txt == strip or (d_name is not None and norm(r_val) == f"{src}[{d_name}:]") or rem_txt == f"{src}[len({src}) - len({strip}):]"
+            if strip in al2.norm(dv) or strip in rem_txt:
+                if depth_ok and rem_ok:
+                    verdict = True
+                elif not depth_ok:
+                    verdict, why = False, f"the depth `{norm(dv)}` is not the length of the stripped prefix"
+                else:
+                    verdict, why = False, f"the remainder `{norm(r_val)}` is not the input without its leading `@` run"
     if verdict is None:
         res.unclass("_split_scope_npath: neither the counting-loop nor the strip-and-difference idiom was recognised")
     else:
